@@ -17,7 +17,13 @@ import (
 // C24 — allotments split amounts exactly.
 // Alphabet: portion vectors of length 1..L over all rationals n/d in [0,1] with d <= D
 // (zero portions included), either summing to exactly 1 or < 1 with one `remaining`
-// at every position; amounts 0..A and 2^64+k, 10^30+k.
+// at every position; amounts 0..A and 2^64+k, 10^30+k, a band of machine-word
+// boundary amounts (2^31, 2^32, 2^53, 2^62, 2^63 +-1) and real-world magnitudes
+// (satoshi / wei scales), and, PER VECTOR, the amounts that make amount x numerator
+// straddle each word boundary (floor(T/n), floor(T/n)+1 for T in 2^31, 2^32, 2^53,
+// 2^63, 2^64 and every numerator n of the resolved vector). A second family of vectors
+// is built from source-level percent literals ("12.345678%", parsed by
+// ParsePortionSpecific) whose reduced numerators are large (up to ~2^27).
 // Oracle: parts sum to amount; part_i = floor(amount*p_i) + [i < leftover].
 func init() { reg.Register("C24", c24) }
 
@@ -55,7 +61,90 @@ func c24() int {
 		amounts = append(amounts, new(big.Int).Add(ten30, big.NewInt(k)))
 	}
 
+	// machine-word boundary band: 2^e-1, 2^e, 2^e+1 (2^64 is covered above)
+	bandExps := []uint{31, 32, 53, 62, 63}
+	for _, e := range bandExps {
+		base := new(big.Int).Lsh(big.NewInt(1), e)
+		for k := int64(-1); k <= 1; k++ {
+			amounts = append(amounts, new(big.Int).Add(base, big.NewInt(k)))
+		}
+	}
+	// real-world magnitudes: 21M BTC in satoshi, 1 / 3.5 / 10 ETH in wei (10 ETH lies in [2^63, 2^64))
+	realWorld := []string{"2100000000000000", "1000000000000000000", "3500000000000000000", "10000000000000000000"}
+	for _, s := range realWorld {
+		v, _ := new(big.Int).SetString(s, 10)
+		amounts = append(amounts, v)
+	}
+	globalAmt := map[string]bool{}
+	for _, a := range amounts {
+		globalAmt[a.String()] = true
+	}
+	// word boundaries T that amount x numerator is made to straddle, per vector
+	thresholdExps := []uint{31, 32, 53, 63, 64}
+	var thresholds []*big.Int
+	for _, e := range thresholdExps {
+		thresholds = append(thresholds, new(big.Int).Lsh(big.NewInt(1), e))
+	}
+	// straddleAmounts: for every numerator n > 0 of the resolved vector and every T,
+	// q = floor(T/n) and q+1, so that q*n <= T < (q+1)*n. Deterministic order, no
+	// duplicates, nothing already in the global menu.
+	straddleAmounts := func(a machine.Allotment) []*big.Int {
+		var out []*big.Int
+		seen := map[string]bool{}
+		seenNum := map[string]bool{}
+		for i := range a {
+			n := a[i].Num()
+			if n.Sign() <= 0 || seenNum[n.String()] {
+				continue
+			}
+			seenNum[n.String()] = true
+			for _, t := range thresholds {
+				q := new(big.Int).Div(t, n)
+				for k := int64(0); k <= 1; k++ {
+					v := new(big.Int).Add(q, big.NewInt(k))
+					key := v.String()
+					if globalAmt[key] || seen[key] {
+						continue
+					}
+					seen[key] = true
+					out = append(out, v)
+				}
+			}
+		}
+		return out
+	}
+	// magnitude class of the largest amount x numerator product of one evaluation
+	const (
+		clsLt31 = iota
+		cls31to32
+		cls32to63
+		cls63to64
+		clsGe64
+		nCls
+	)
+	clsName := [nCls]string{"prod-lt-2^31", "prod-2^31..2^32", "prod-2^32..2^63", "prod-2^63..2^64", "prod-ge-2^64"}
+	clsOf := func(bits int) int {
+		switch {
+		case bits <= 31:
+			return clsLt31
+		case bits == 32:
+			return cls31to32
+		case bits <= 63:
+			return cls32to63
+		case bits == 64:
+			return cls63to64
+		}
+		return clsGe64
+	}
+
 	var evals, vectors, leftoverCases atomic.Int64
+	var clsCount [nCls]atomic.Int64
+	// evaluations where the amount itself fits a signed word (< 2^63) but some
+	// amount x numerator product lies in [2^63, 2^64) / is >= 2^64
+	var mulCrosses63, mulCrosses64 atomic.Int64
+	// same as mulCrosses63, the crossing numerator being >= 2^16 (percent literals)
+	var bigNumCrosses63 atomic.Int64
+	var straddleEvals, percentVectors, bigNumVectors atomic.Int64
 	distinct := sync.Map{}
 	var distinctN atomic.Int64
 	samples := ev.NewSamples(5)
@@ -78,8 +167,30 @@ func c24() int {
 			r.Violation("C24:resolved-sum", fmt.Sprintf("allotment %s resolves to %s (sum %s)", desc, a.String(), sum), map[string]any{"portions": desc})
 			return
 		}
-		for _, amt := range amounts {
-			evals.Add(1)
+		vecAmounts := append(append([]*big.Int{}, amounts...), straddleAmounts(*a)...)
+		straddleEvals.Add(int64(len(vecAmounts) - len(amounts)))
+		bigNum := false
+		for i := range *a {
+			if (*a)[i].Num().BitLen() > 16 {
+				bigNum = true
+			}
+		}
+		if bigNum {
+			bigNumVectors.Add(1)
+		}
+		var lCls [nCls]int64
+		var lCross63, lCross64, lBigCross63, lLeft int64
+		defer func() {
+			evals.Add(int64(len(vecAmounts)))
+			for c := range lCls {
+				clsCount[c].Add(lCls[c])
+			}
+			mulCrosses63.Add(lCross63)
+			mulCrosses64.Add(lCross64)
+			bigNumCrosses63.Add(lBigCross63)
+			leftoverCases.Add(lLeft)
+		}()
+		for _, amt := range vecAmounts {
 			mi := machine.MonetaryInt(*new(big.Int).Set(amt))
 			parts := a.Allocate(&mi)
 			if len(parts) != len(*a) {
@@ -88,17 +199,46 @@ func c24() int {
 			}
 			floors := make([]*big.Int, len(parts))
 			total := new(big.Int)
+			maxBits, bigBits := 0, 0
+			prodBits := make([]int, len(parts))
 			for i := range *a {
 				f := new(big.Int).Mul(amt, (*a)[i].Num())
+				prodBits[i] = f.BitLen()
+				if b := f.BitLen(); b > maxBits {
+					maxBits = b
+				}
+				if b := f.BitLen(); (*a)[i].Num().BitLen() > 16 && b > bigBits {
+					bigBits = b
+				}
 				f.Div(f, (*a)[i].Denom())
 				floors[i] = f
 				total.Add(total, f)
 			}
+			cls := clsOf(maxBits)
+			lCls[cls]++
+			if amt.BitLen() <= 63 {
+				if cls == cls63to64 {
+					lCross63++
+				}
+				if cls == clsGe64 {
+					lCross64++
+				}
+				if clsOf(bigBits) == cls63to64 {
+					lBigCross63++
+				}
+			}
 			left := new(big.Int).Sub(amt, total)
 			if left.Sign() > 0 {
-				leftoverCases.Add(1)
+				lLeft++
 			}
+			// One violation per failing evaluation, labelled by its most specific symptom:
+			// a part outside [floor, floor+1] (class = that part's own amount x numerator
+			// product) > a part in range but not floor + [i < leftover] > wrong sum. The
+			// other symptoms of the same evaluation are consequences (a part that is too
+			// small makes the round-robin hand a spurious unit to every other part).
 			got := new(big.Int)
+			outIdx, valIdx := -1, -1
+			wants := make([]*big.Int, len(parts))
 			for i, p := range parts {
 				pi := (*big.Int)(p)
 				got.Add(got, pi)
@@ -106,17 +246,29 @@ func c24() int {
 				if big.NewInt(int64(i)).Cmp(left) < 0 {
 					want.Add(want, big.NewInt(1))
 				}
+				wants[i] = want
 				if pi.Cmp(want) != 0 {
-					sig := "C24:part-value"
 					if pi.Cmp(floors[i]) < 0 || pi.Cmp(new(big.Int).Add(floors[i], big.NewInt(1))) > 0 {
-						sig = "C24:part-out-of-floor-range"
+						if outIdx < 0 {
+							outIdx = i
+						}
+					} else if valIdx < 0 {
+						valIdx = i
 					}
-					r.Violation(sig, fmt.Sprintf("%s amount %s: part %d = %s, want %s (floor %s, leftover %s)", desc, amt, i, pi, want, floors[i], left),
-						map[string]any{"portions": desc, "amount": amt.String()})
 				}
 			}
-			if got.Cmp(amt) != 0 {
-				r.Violation("C24:sum", fmt.Sprintf("%s amount %s: parts sum to %s", desc, amt, got), map[string]any{"portions": desc, "amount": amt.String()})
+			replay := map[string]any{"portions": desc, "resolved": a.String(), "amount": amt.String(), "parts": fmt.Sprint(parts)}
+			switch {
+			case outIdx >= 0:
+				i := outIdx
+				r.Violation("C24:part-out-of-floor-range:"+clsName[clsOf(prodBits[i])],
+					fmt.Sprintf("%s amount %s: part %d = %s, want %s (floor %s, leftover %s, amount x numerator has %d bits); parts %v sum to %s", desc, amt, i, (*big.Int)(parts[i]), wants[i], floors[i], left, prodBits[i], parts, got), replay)
+			case valIdx >= 0:
+				i := valIdx
+				r.Violation("C24:part-value:"+clsName[cls],
+					fmt.Sprintf("%s amount %s: part %d = %s, want %s (floor %s, leftover %s); parts %v sum to %s", desc, amt, i, (*big.Int)(parts[i]), wants[i], floors[i], left, parts, got), replay)
+			case got.Cmp(amt) != 0:
+				r.Violation("C24:sum:"+clsName[cls], fmt.Sprintf("%s amount %s: parts sum to %s", desc, amt, got), replay)
 			}
 			if amt.Sign() > 0 {
 				key := a.String()
@@ -125,7 +277,7 @@ func c24() int {
 				}
 			}
 		}
-		samples.Add(map[string]any{"portions": desc, "resolved": a.String(), "amounts": len(amounts)})
+		samples.Add(map[string]any{"portions": desc, "resolved": a.String(), "amounts": len(vecAmounts)})
 	}
 
 	// enumerate prefixes in parallel on the first element
@@ -205,18 +357,139 @@ func c24() int {
 	// `remaining` alone
 	checkVector([]machine.Portion{machine.NewPortionRemaining()}, "remaining ")
 
-	if leftoverCases.Load() == 0 && r.ViolationCount() == 0 {
-		r.EngineError("vacuous: no case with a leftover unit")
+	// Second family: source-level percent literals (what a Numscript author writes),
+	// parsed by the real ParsePortionSpecific; their reduced numerators are large
+	// (12.345678% = 6172839/50000000), so amount x numerator reaches the word
+	// boundaries for everyday amounts. Vectors: [p remaining], [remaining p],
+	// [p (1-p)], and for every ordered pair p+q<=1: [p q remaining] with `remaining`
+	// at every position (plus [p q] when p+q = 1).
+	literals := []string{"50%", "75%", "2.5%", "33.33%", "12.345678%", "66.666667%", "99.999999%", "0.000001%"}
+	if r.Thorough() {
+		literals = append(literals, "0%", "100%", "0.1%", "99.9%", "1.2345678901%", "87.654322%")
+	}
+	type pvec struct {
+		ps   []machine.Portion
+		desc string
+	}
+	var pvecs []pvec
+	parsed := make([]*big.Rat, len(literals))
+	for i, l := range literals {
+		p, err := machine.ParsePortionSpecific(l)
+		if err != nil {
+			r.Violation("C24:portion-rejected", fmt.Sprintf("ParsePortionSpecific(%q): %v", l, err), map[string]any{"literal": l})
+			continue
+		}
+		parsed[i] = new(big.Rat).Set(p.Specific)
+	}
+	spec := func(v *big.Rat) machine.Portion {
+		p, err := machine.NewPortionSpecific(*new(big.Rat).Set(v))
+		if err != nil {
+			r.Violation("C24:portion-rejected", fmt.Sprintf("NewPortionSpecific(%s): %v", v, err), nil)
+			return machine.NewPortionRemaining()
+		}
+		return *p
+	}
+	withRemaining := func(vals []*big.Rat, names []string) {
+		for pos := 0; pos <= len(vals); pos++ {
+			var ps []machine.Portion
+			d := ""
+			for i := 0; i <= len(vals); i++ {
+				if i == pos {
+					ps = append(ps, machine.NewPortionRemaining())
+					d += "remaining "
+				}
+				if i < len(vals) {
+					ps = append(ps, spec(vals[i]))
+					d += names[i] + " "
+				}
+			}
+			pvecs = append(pvecs, pvec{ps, d})
+		}
+	}
+	for i, p := range parsed {
+		if p == nil {
+			continue
+		}
+		withRemaining([]*big.Rat{p}, []string{literals[i]})
+		rest := new(big.Rat).Sub(one, p)
+		pvecs = append(pvecs, pvec{[]machine.Portion{spec(p), spec(rest)}, literals[i] + " " + rest.String() + " "})
+		for j, q := range parsed {
+			if q == nil {
+				continue
+			}
+			sum := new(big.Rat).Add(p, q)
+			if sum.Cmp(one) > 0 {
+				continue
+			}
+			withRemaining([]*big.Rat{p, q}, []string{literals[i], literals[j]})
+			if sum.Cmp(one) == 0 && i != j {
+				pvecs = append(pvecs, pvec{[]machine.Portion{spec(p), spec(q)}, literals[i] + " " + literals[j] + " "})
+			}
+		}
+	}
+	{
+		pjobs := make(chan pvec)
+		var pwg sync.WaitGroup
+		for w := 0; w < runtime.NumCPU(); w++ {
+			pwg.Add(1)
+			go func() {
+				defer pwg.Done()
+				for v := range pjobs {
+					if r.Expired() {
+						exhaustive.Store(false)
+						continue
+					}
+					checkVector(v.ps, v.desc)
+					percentVectors.Add(1)
+				}
+			}()
+		}
+		for _, v := range pvecs {
+			pjobs <- v
+		}
+		close(pjobs)
+		pwg.Wait()
+	}
+
+	if r.ViolationCount() == 0 {
+		if leftoverCases.Load() == 0 {
+			r.EngineError("vacuous: no case with a leftover unit")
+		}
+		for c := 0; c < nCls; c++ {
+			if clsCount[c].Load() == 0 {
+				r.EngineError("vacuous: no evaluation whose largest amount x numerator product is in class " + clsName[c])
+			}
+		}
+		if mulCrosses63.Load() == 0 || mulCrosses64.Load() == 0 {
+			r.EngineError(fmt.Sprintf("vacuous: no amount < 2^63 whose product with a numerator crosses a word boundary (into [2^63,2^64): %d, >= 2^64: %d)", mulCrosses63.Load(), mulCrosses64.Load()))
+		}
+		if percentVectors.Load() == 0 || bigNumVectors.Load() == 0 || bigNumCrosses63.Load() == 0 {
+			r.EngineError(fmt.Sprintf("vacuous: percent-literal family not exercised (vectors %d, vectors with a numerator >= 2^16: %d, evaluations where amount < 2^63 x such a numerator lies in [2^63,2^64): %d)", percentVectors.Load(), bigNumVectors.Load(), bigNumCrosses63.Load()))
+		}
+		if straddleEvals.Load() == 0 {
+			r.EngineError("vacuous: no per-vector straddling amount was evaluated")
+		}
+	}
+	byClass := map[string]int64{}
+	for c := 0; c < nCls; c++ {
+		byClass[clsName[c]] = clsCount[c].Load()
 	}
 	cov := ev.Coverage{
 		"evaluations":         evals.Load(),
 		"distinct_nontrivial": distinctN.Load(),
-		"rule": fmt.Sprintf("all portion vectors of length<=%d over rationals n/d, d<=%d (%d values, zero included), summing to 1 or <1 with `remaining` at every position, x %d amounts (0..%d, 2^64-1..2^64+9, 10^30-1..10^30+9); distinct_nontrivial = distinct resolved vectors allocated with a positive amount",
-			maxLen, maxDen, len(menu), len(amounts), maxAmt),
-		"samples":             samples.List(),
-		"vectors":             vectors.Load(),
-		"cases_with_leftover": leftoverCases.Load(),
-		"exhaustive":          exhaustive.Load(),
+		"rule": fmt.Sprintf("(A) all portion vectors of length<=%d over rationals n/d, d<=%d (%d values, zero included), summing to 1 or <1 with `remaining` at every position; (B) %d vectors over the percent literals %v parsed by ParsePortionSpecific: [p remaining], [remaining p], [p 1-p], [p q remaining] with `remaining` at every position for every ordered pair p+q<=1, [p q] when p+q=1; every vector x %d fixed amounts (0..%d; 2^e-1..2^e+1 for e in %v; 2^64-1..2^64+9; 10^30-1..10^30+9; real-world %v) + its own straddling amounts floor(T/n), floor(T/n)+1 for every numerator n of the resolved vector and T = 2^e, e in %v (those not already in the fixed menu); distinct_nontrivial = distinct resolved vectors allocated with a positive amount",
+			maxLen, maxDen, len(menu), len(pvecs), literals, len(amounts), maxAmt, bandExps, realWorld, thresholdExps),
+		"samples":                                   samples.List(),
+		"vectors":                                   vectors.Load(),
+		"cases_with_leftover":                       leftoverCases.Load(),
+		"percent_literal_vectors":                   percentVectors.Load(),
+		"vectors_with_numerator_ge_2^16":            bigNumVectors.Load(),
+		"straddling_amount_evaluations":             straddleEvals.Load(),
+		"evaluations_by_largest_product_class":      byClass,
+		"amount_lt_2^63_product_in_2^63..2^64":      mulCrosses63.Load(),
+		"amount_lt_2^63_product_ge_2^64":            mulCrosses64.Load(),
+		"same_with_numerator_ge_2^16_in_2^63..2^64": bigNumCrosses63.Load(),
+		"exhaustive":                                exhaustive.Load(),
 	}
 	_ = os.Stdout
 	return r.Finish(cov, []string{"Allocate is called directly on machine.Allotment built by NewAllotment; compiler-level rejection of non-100% allotments is exercised by C22's program space"})
